@@ -308,9 +308,6 @@ Proof.
     apply existsb_exists in E as (i & Hi & He). apply N.eqb_eq in He. subst. done.
 Qed.
 
-Definition seg_deltas (st : gmap name (sobj obj)) (s : seginfo) : list delta :=
-  match st !! si_key s with Some (Whole (OSeg ds)) => ds | _ => [] end.
-
 Lemma read_segs_store v (w : world obj) segs a w' r :
   read_segs v w segs a = (w', r) → w_store w' = w_store w.
 Proof.
@@ -417,7 +414,7 @@ Section compact_inv.
     destruct (load_or_create w 0) as [w1 r1] eqn:Hl.
     apply load_or_create_spec in Hl as (Hs1 & Hm1 & _ & _).
     destruct r1 as [m| |]; [|intros [= <- <-]; by rewrite Hs1..].
-    specialize (Hm1 m eq_refl).
+    specialize (Hm1 m eq_refl). unfold compact_rest.
     destruct (N.of_nat (length (select c m)) <? cc_min c). { intros [= <- <-]; by rewrite Hs1. }
     set (cutoff := now - cc_ttl c).
     destruct (read_segs v w1 (select c m) (CAcc ∅ 0 [] [])) as [w2 r2] eqn:Hr.
